@@ -71,6 +71,10 @@ Theorem typed_rt_partial : forall k v, key_ok k = true -> rt_exact v = true -> r
 Proof. exact typed_rt_partial. Qed.
 Print Assumptions typed_rt_partial.
 
+(* NOTE (trusted, not proved here): a float x is carried as the token repr(x).  This theorem shows that the token
+   comes back unchanged and classified as a float literal; that the token denotes x again, float(repr(x)) == x, is
+   CPython's shortest-repr guarantee.  It is listed in the check's assumptions and exercised on the implementation by
+   a bit-exact comparison of every float read back (harness/props/c20.py, prop stream). *)
 Theorem typed_rt_float : forall k t, key_ok k = true -> ftok_ok t = true ->
   roundtrip k (VFloat (render_ftok t)) = Ok (k, CFloat (render_ftok t)).
 Proof. exact typed_rt_float. Qed.
